@@ -89,12 +89,14 @@ func c03(r *core.Run) {
 func c07(r *core.Run) {
 	r.Explanation = "Decided clause: purity observation points — every checker visitor of an impure construct still reports it to the purity mechanism: pinned census of the call edges into ObserveImpureOperation, enforceViewAssignment, EnforcePurity and InNewPurityScope " +
 		"(assignment, swap, destroy, remove, invocation of non-view functions, conditions and view function bodies); " +
-		"(R2) the observation dominates the operation it guards: EnforcePurity before checkInvocation, enforceViewAssignment before recordResourceInvalidation."
-	r.NotDecided = "the alias/reference reasoning inside enforceViewAssignment; purity of built-in functions' native implementations; observable effects through references at run time."
+		"(R2) the observation dominates the operation it guards: EnforcePurity before checkInvocation, enforceViewAssignment before recordResourceInvalidation; " +
+		"(R3) run-time side: only the reviewed mutating entry points look a domain storage map up with createIfNotExists != false (a lookup that creates maps writes registers, also from a view function)."
+	r.NotDecided = "the alias/reference reasoning inside enforceViewAssignment; purity of built-in functions' native implementations beyond R3; observable effects through references at run time."
 	pinnedCallCensus(r, "R1.census", "c07_purity_edges", "sema", []string{"ObserveImpureOperation", "enforceViewAssignment", "EnforcePurity", "InNewPurityScope", "CurrentPurityScope", "PushNewPurityScope", "PopPurityScope"},
 		"an impure operation in a view context would no longer be reported")
 	r.Floor("R1.census", 10)
 	c07Order(r)
+	c07StorageMapCreators(r)
 }
 
 // c03Structure: R7–R9.
@@ -297,6 +299,12 @@ func c03Structure(r *core.Run) {
 		}
 	}
 	r.Floor("R9.merges", 3)
+	// R10 the loop and switch jump-target scopes are mirror images: save the flag, run the body in a new jump target,
+	// clear the definite exits if the body jumped, restore the flag — in that order in both
+	siblingRule(r, "R10.scopes", []*core.Family{famCtl}, func(g string) bool {
+		return g == "sema.(FunctionActivation).With§0" || g == "sema.(ReturnInfo).WithNew§0JumpTarget"
+	})
+	r.Floor("R10.scopes", 2)
 }
 
 func isNilTestOf(e ast.Expr, info *types.Info, role map[types.Object]string, suffix string) bool {
